@@ -3,6 +3,7 @@ package main
 import (
 	"fmt"
 	"go/types"
+	"sort"
 	"strconv"
 	"strings"
 
@@ -67,6 +68,7 @@ type State struct {
 	ghostInt map[string]Term // per-path ghost counters (e.g. sends per stream)
 	panicked bool
 	pendingAlloc string // alloc counter that bounds references in heap versions being created
+	loopSnaps map[*ssa.BasicBlock]*snapshot // heap at the first arrival at each loop head (atloop(...))
 }
 
 func (st *State) fork() *State {
@@ -98,6 +100,12 @@ func (st *State) fork() *State {
 	}
 	n.trace = append([]string(nil), st.trace...)
 	n.pendingAlloc = st.pendingAlloc
+	if st.loopSnaps != nil {
+		n.loopSnaps = make(map[*ssa.BasicBlock]*snapshot, len(st.loopSnaps))
+		for k, v := range st.loopSnaps {
+			n.loopSnaps[k] = v
+		}
+	}
 	return n
 }
 
@@ -152,7 +160,7 @@ func (st *State) instantiate(h *heapNode, addr Term) {
 		if n.sort == "Ref" && n.allocAt != "" {
 			// heap invariant: a reference stored in this heap version existed when the version was created
 			// (cells of objects allocated later by callees are excluded: their content is only known through contracts)
-			st.assume(tImp("(<= "+tRid(addr)+" "+n.allocAt+")", "(<= "+tRid(tSel(n.name, addr))+" "+n.allocAt+")"))
+			st.assume(tImp("(<= "+tOrid(addr)+" "+n.allocAt+")", "(<= "+tRid(tSel(n.name, addr))+" "+n.allocAt+")"))
 		}
 	}
 }
@@ -196,8 +204,15 @@ func distinctAddrs(a, b Term) bool {
 		return false
 	}
 	if ra != rb {
+		ga, gb := strings.HasPrefix(ra, "(- (- "), strings.HasPrefix(rb, "(- (- ")
+		if ga != gb {
+			return true // a ghost cell and a real cell never coincide
+		}
+		if ga {
+			ra, rb = ra[6:len(ra)-4], rb[6:len(rb)-4]
+		}
 		// two different objects allocated on this path
-		return strings.HasPrefix(ra, "alloc_") && strings.HasPrefix(rb, "alloc_") && ra != "alloc_0" && rb != "alloc_0"
+		return strings.HasPrefix(ra, "alloc_") && strings.HasPrefix(rb, "alloc_") && ra != "alloc_0" && rb != "alloc_0" && ra != rb
 	}
 	return distinctPaths(pa, pb)
 }
@@ -365,8 +380,60 @@ func (st *State) loadValIn(sn *snapshot, addr Term, t types.Type) Val {
 		if ar := st.x.appendInfo[ei.arr]; ar != nil {
 			st.copyAxiom(ar, ei, addr, t, 0)
 		}
+		if ei.hasSl {
+			st.memberAxiom(ei, v)
+		}
 	}
 	return v
+}
+
+// elemsOf: the element set of a slice of string-kinded values (uninterpreted
+// in (arr, off, len): slices are treated as immutable once built).
+func (st *State) elemsOf(sl [3]Term) Term {
+	st.x.d.DeclareFun("elems", []string{"Ref", "Int", "Int"}, "(Array String Bool)")
+	t := "(elems " + sl[0] + " " + sl[1] + " " + sl[2] + ")"
+	if !st.instd["elems0|"+t] {
+		st.instd["elems0|"+t] = true
+		st.assume(tImp("(<= "+sl[2]+" 0)", tEq(t, "((as const (Array String Bool)) false)")))
+	}
+	return t
+}
+
+// memberAxiom: an element read from a slice belongs to the slice's element set.
+func (st *State) memberAxiom(ei elemRef, v Val) {
+	ls := leavesOf(v.T)
+	inRange := tAnd("(<= 0 "+ei.rel+")", "(< "+ei.rel+" "+ei.sl[2]+")")
+	switch {
+	case len(ls) == 1 && ls[0].Sort == "String":
+		st.assume(tImp(inRange, tSel(st.elemsOf(ei.sl), v.L[0])))
+	case len(ls) == 2 && ls[0].Kind == LkTag:
+		// interface element boxing a string-kinded value
+		var alts []Term
+		ids := make([]int, 0)
+		for id, t := range st.x.prog.typeByID {
+			if l := leavesOfSafe(t); len(l) == 1 && l[0].Sort == "String" && l[0].Kind == LkPlain {
+				ids = append(ids, id)
+			}
+		}
+		sort.Ints(ids)
+		for _, id := range ids {
+			alts = append(alts, tEq(v.L[0], tInt(int64(id))))
+		}
+		if len(alts) == 0 {
+			return
+		}
+		boxed := st.loadIn(nil, "String", v.L[1])
+		st.assume(tImp(tAnd(inRange, tOr(alts...)), tSel(st.elemsOf(ei.sl), boxed)))
+	}
+}
+
+func leavesOfSafe(t types.Type) (ls []Leaf) {
+	defer func() {
+		if r := recover(); r != nil {
+			ls = nil
+		}
+	}()
+	return leavesOf(t)
 }
 
 // copyAxiom: contents of a backing array produced by append, stated for the
